@@ -110,6 +110,9 @@ func c06Build(c *choice.Stream) *c06Case {
 			warm = ww.B
 			cs.desc["reused_targets"] = true
 		}
+		// LowCardinality columns may be bound to the non-generic target, which
+		// exposes dictionary and keys instead of values
+		lcraw := kind == "block" && c.Bool("lcraw", 1, 3)
 		auto := kind == "block-auto"
 		if auto {
 			for _, bc := range blk.Cols {
@@ -138,6 +141,18 @@ func c06Build(c *choice.Stream) *c06Case {
 				return b.Rows, out, nil, nil
 			}
 			typed, raw := ResultTargets(cols)
+			var rts []*refproto.Type
+			for i, x := range cols {
+				rts = append(rts, x.RT)
+				if lcraw && x.RT.Kind == refproto.KLowCard {
+					idx, err := gen.NewCol(x.RT.Elems[0].Name)
+					if err != nil {
+						panic(err)
+					}
+					t := &proto.ColLowCardinalityRaw{Index: idx, Key: proto.KeyUInt8}
+					typed[i].Data, raw[i], rts[i] = t, t, nil
+				}
+			}
 			if len(warm) > 0 {
 				// result columns are reused across blocks: fill them from a valid block first
 				var wb proto.Block
@@ -151,10 +166,6 @@ func c06Build(c *choice.Stream) *c06Case {
 			if b.Columns == 0 {
 				// the empty end marker carries no columns: the targets are not part of it
 				return b.Rows, nil, nil, nil
-			}
-			var rts []*refproto.Type
-			for _, x := range cols {
-				rts = append(rts, x.RT)
 			}
 			return b.Rows, raw, rts, nil
 		}
@@ -502,6 +513,9 @@ func runC06(t *testing.T, c *choice.Stream, r *Result, opt RunOpt) {
 			if col.Rows() != rows {
 				r.Violate("inconsistent-result", "rows-mismatch:"+cs.key, "decode succeeded with %d rows but column %d (%s) reports %d (%v)", rows, i, col.Type(), col.Rows(), what)
 				return
+			}
+			if rts != nil && rts[i] == nil {
+				continue // dictionary and keys: no row accessor
 			}
 			if rts != nil {
 				if _, err := gen.ReadAll(col, rts[i], rows); err != nil {
